@@ -313,6 +313,10 @@ def diff_tables(exp, got, check_types=True):
         if len(te['rows']) != len(tg['rows']):
             out.append('%s row count: expected %d got %d' % (te['name'], len(te['rows']), len(tg['rows'])))
             continue
+        if 'size' in tg and tg['size'] != len(te['rows']):
+            out.append('%s size(): expected %d got %d' % (te['name'], len(te['rows']), tg['size']))
+        if tg.get('rec_dtype_equal') is False:
+            out.append('%s columns: record array dtype differs from dtype()' % te['name'])
         for i, (re_, rg) in enumerate(zip(te['rows'], tg['rows'])):
             for j, (a, b) in enumerate(zip(re_, rg)):
                 if norm_cell(a, b) != norm_cell_got(b, a):
